@@ -239,7 +239,10 @@ func modeC10(rulesFile string) {
 				return
 			}
 			names := []string{"a.z1.test.", "z1.test.", "b.z2.test.", "exact.z3.test.", "other.z3.test.", "z9.test.", "A.Z1.TEST.",
-				"a-label-of-more-than-24-octets.z1x.test.", "js.a-label-of-more-than-24-octets.z1x.test.", "x.another-label-of-more-than-24-octets.z2x.test."}
+				"a-label-of-more-than-24-octets.z1x.test.", "js.a-label-of-more-than-24-octets.z1x.test.", "x.another-label-of-more-than-24-octets.z2x.test.",
+				// names of many labels (a reverse-lookup name has 34): every label counts, the set's entry is at the far end
+				"1.0.0.0.0.0.0.0.0.0.0.0.0.0.0.0.0.0.0.0.0.0.0.0.8.b.d.0.1.0.0.2.z1.test.", "f.e.d.c.b.a.9.8.7.6.5.4.3.2.1.0.z2.test.",
+				"a.b.c.d.e.f.g.h.i.j.k.l.m.n.o.p.q.r.s.t.u.v.w.x.y.z.other.z3.test."}
 			par(len(names), func(i int) {
 				lst := []string{"udp", "tcp"}[i%2]
 				q := mkq(uniq() + ".r0t60d0." + names[i])
